@@ -6,29 +6,46 @@ import "unsafe"
 // sequentially consistent): each variable carries a vector clock that every
 // atomic operation both acquires and releases.
 
-func (s *Sim) atomicPoint(p unsafe.Pointer) {
+const (
+	atomLoad  = 1 // acquire
+	atomStore = 2 // release
+	atomRMW   = 3 // both
+)
+
+func (s *Sim) atomicPoint(p unsafe.Pointer, mode int) {
 	t := s.cur
 	t.pend = op{kind: OpYield}
 	s.yield(t)
-	vc := s.atomVC[p]
-	t.vc.join(vc)
-	s.atomVC[p] = t.vc.copy()
+	if mode&atomLoad != 0 {
+		t.vc.join(s.atomVC[p])
+	}
+	if mode&atomStore != 0 {
+		// a store publishes what this task has done (and, being sequentially
+		// consistent, is ordered after the earlier stores it could observe)
+		nv := s.atomVC[p].copy()
+		nv.join(t.vc)
+		s.atomVC[p] = nv
+	}
 	t.vc.tick(t.id)
 }
 
-func atomicOp(p unsafe.Pointer) {
+func atomicOpMode(p unsafe.Pointer, mode int) {
 	if s := S; s != nil && !s.aborting {
 		if s.atomVC == nil {
 			s.atomVC = map[unsafe.Pointer]vclock{}
 		}
-		s.atomicPoint(p)
+		s.atomicPoint(p, mode)
 	}
 }
 
+func atomicOp(p unsafe.Pointer)      { atomicOpMode(p, atomRMW) }
+func atomicLoadOp(p unsafe.Pointer)  { atomicOpMode(p, atomLoad) }
+func atomicStoreOp(p unsafe.Pointer) { atomicOpMode(p, atomStore) }
+
 type Int32 struct{ v int32 }
 
-func (x *Int32) Load() int32        { atomicOp(unsafe.Pointer(x)); return x.v }
-func (x *Int32) Store(v int32)      { atomicOp(unsafe.Pointer(x)); x.v = v }
+func (x *Int32) Load() int32        { atomicLoadOp(unsafe.Pointer(x)); return x.v }
+func (x *Int32) Store(v int32)      { atomicStoreOp(unsafe.Pointer(x)); x.v = v }
 func (x *Int32) Add(d int32) int32  { atomicOp(unsafe.Pointer(x)); x.v += d; return x.v }
 func (x *Int32) Swap(v int32) int32 { atomicOp(unsafe.Pointer(x)); o := x.v; x.v = v; return o }
 func (x *Int32) CompareAndSwap(o, n int32) bool {
@@ -42,8 +59,8 @@ func (x *Int32) CompareAndSwap(o, n int32) bool {
 
 type Int64 struct{ v int64 }
 
-func (x *Int64) Load() int64        { atomicOp(unsafe.Pointer(x)); return x.v }
-func (x *Int64) Store(v int64)      { atomicOp(unsafe.Pointer(x)); x.v = v }
+func (x *Int64) Load() int64        { atomicLoadOp(unsafe.Pointer(x)); return x.v }
+func (x *Int64) Store(v int64)      { atomicStoreOp(unsafe.Pointer(x)); x.v = v }
 func (x *Int64) Add(d int64) int64  { atomicOp(unsafe.Pointer(x)); x.v += d; return x.v }
 func (x *Int64) Swap(v int64) int64 { atomicOp(unsafe.Pointer(x)); o := x.v; x.v = v; return o }
 func (x *Int64) CompareAndSwap(o, n int64) bool {
@@ -57,8 +74,8 @@ func (x *Int64) CompareAndSwap(o, n int64) bool {
 
 type Uint32 struct{ v uint32 }
 
-func (x *Uint32) Load() uint32         { atomicOp(unsafe.Pointer(x)); return x.v }
-func (x *Uint32) Store(v uint32)       { atomicOp(unsafe.Pointer(x)); x.v = v }
+func (x *Uint32) Load() uint32         { atomicLoadOp(unsafe.Pointer(x)); return x.v }
+func (x *Uint32) Store(v uint32)       { atomicStoreOp(unsafe.Pointer(x)); x.v = v }
 func (x *Uint32) Add(d uint32) uint32  { atomicOp(unsafe.Pointer(x)); x.v += d; return x.v }
 func (x *Uint32) Swap(v uint32) uint32 { atomicOp(unsafe.Pointer(x)); o := x.v; x.v = v; return o }
 func (x *Uint32) CompareAndSwap(o, n uint32) bool {
@@ -72,8 +89,8 @@ func (x *Uint32) CompareAndSwap(o, n uint32) bool {
 
 type Uint64 struct{ v uint64 }
 
-func (x *Uint64) Load() uint64         { atomicOp(unsafe.Pointer(x)); return x.v }
-func (x *Uint64) Store(v uint64)       { atomicOp(unsafe.Pointer(x)); x.v = v }
+func (x *Uint64) Load() uint64         { atomicLoadOp(unsafe.Pointer(x)); return x.v }
+func (x *Uint64) Store(v uint64)       { atomicStoreOp(unsafe.Pointer(x)); x.v = v }
 func (x *Uint64) Add(d uint64) uint64  { atomicOp(unsafe.Pointer(x)); x.v += d; return x.v }
 func (x *Uint64) Swap(v uint64) uint64 { atomicOp(unsafe.Pointer(x)); o := x.v; x.v = v; return o }
 func (x *Uint64) CompareAndSwap(o, n uint64) bool {
@@ -87,8 +104,8 @@ func (x *Uint64) CompareAndSwap(o, n uint64) bool {
 
 type Bool struct{ v bool }
 
-func (x *Bool) Load() bool       { atomicOp(unsafe.Pointer(x)); return x.v }
-func (x *Bool) Store(v bool)     { atomicOp(unsafe.Pointer(x)); x.v = v }
+func (x *Bool) Load() bool       { atomicLoadOp(unsafe.Pointer(x)); return x.v }
+func (x *Bool) Store(v bool)     { atomicStoreOp(unsafe.Pointer(x)); x.v = v }
 func (x *Bool) Swap(v bool) bool { atomicOp(unsafe.Pointer(x)); o := x.v; x.v = v; return o }
 func (x *Bool) CompareAndSwap(o, n bool) bool {
 	atomicOp(unsafe.Pointer(x))
@@ -101,8 +118,8 @@ func (x *Bool) CompareAndSwap(o, n bool) bool {
 
 type Pointer[T any] struct{ p *T }
 
-func (x *Pointer[T]) Load() *T     { atomicOp(unsafe.Pointer(x)); return x.p }
-func (x *Pointer[T]) Store(v *T)   { atomicOp(unsafe.Pointer(x)); x.p = v }
+func (x *Pointer[T]) Load() *T     { atomicLoadOp(unsafe.Pointer(x)); return x.p }
+func (x *Pointer[T]) Store(v *T)   { atomicStoreOp(unsafe.Pointer(x)); x.p = v }
 func (x *Pointer[T]) Swap(v *T) *T { atomicOp(unsafe.Pointer(x)); o := x.p; x.p = v; return o }
 func (x *Pointer[T]) CompareAndSwap(o, n *T) bool {
 	atomicOp(unsafe.Pointer(x))
@@ -115,17 +132,17 @@ func (x *Pointer[T]) CompareAndSwap(o, n *T) bool {
 
 type Value struct{ v any }
 
-func (x *Value) Load() any      { atomicOp(unsafe.Pointer(x)); return x.v }
-func (x *Value) Store(v any)    { atomicOp(unsafe.Pointer(x)); x.v = v }
+func (x *Value) Load() any      { atomicLoadOp(unsafe.Pointer(x)); return x.v }
+func (x *Value) Store(v any)    { atomicStoreOp(unsafe.Pointer(x)); x.v = v }
 func (x *Value) Swap(v any) any { atomicOp(unsafe.Pointer(x)); o := x.v; x.v = v; return o }
 
 type integer interface {
 	~int32 | ~int64 | ~uint32 | ~uint64 | ~uintptr
 }
 
-func atomAdd[T integer](p *T, d T) T { atomicOp(unsafe.Pointer(p)); *p += d; return *p }
-func atomLoad[T integer](p *T) T     { atomicOp(unsafe.Pointer(p)); return *p }
-func atomStore[T integer](p *T, v T) { atomicOp(unsafe.Pointer(p)); *p = v }
+func atomAdd[T integer](p *T, d T) T  { atomicOp(unsafe.Pointer(p)); *p += d; return *p }
+func atomLoadF[T integer](p *T) T     { atomicLoadOp(unsafe.Pointer(p)); return *p }
+func atomStoreF[T integer](p *T, v T) { atomicStoreOp(unsafe.Pointer(p)); *p = v }
 func atomSwap[T integer](p *T, v T) T {
 	atomicOp(unsafe.Pointer(p))
 	o := *p
@@ -145,14 +162,14 @@ func AddInt32(p *int32, d int32) int32                 { return atomAdd(p, d) }
 func AddInt64(p *int64, d int64) int64                 { return atomAdd(p, d) }
 func AddUint32(p *uint32, d uint32) uint32             { return atomAdd(p, d) }
 func AddUint64(p *uint64, d uint64) uint64             { return atomAdd(p, d) }
-func LoadInt32(p *int32) int32                         { return atomLoad(p) }
-func LoadInt64(p *int64) int64                         { return atomLoad(p) }
-func LoadUint32(p *uint32) uint32                      { return atomLoad(p) }
-func LoadUint64(p *uint64) uint64                      { return atomLoad(p) }
-func StoreInt32(p *int32, v int32)                     { atomStore(p, v) }
-func StoreInt64(p *int64, v int64)                     { atomStore(p, v) }
-func StoreUint32(p *uint32, v uint32)                  { atomStore(p, v) }
-func StoreUint64(p *uint64, v uint64)                  { atomStore(p, v) }
+func LoadInt32(p *int32) int32                         { return atomLoadF(p) }
+func LoadInt64(p *int64) int64                         { return atomLoadF(p) }
+func LoadUint32(p *uint32) uint32                      { return atomLoadF(p) }
+func LoadUint64(p *uint64) uint64                      { return atomLoadF(p) }
+func StoreInt32(p *int32, v int32)                     { atomStoreF(p, v) }
+func StoreInt64(p *int64, v int64)                     { atomStoreF(p, v) }
+func StoreUint32(p *uint32, v uint32)                  { atomStoreF(p, v) }
+func StoreUint64(p *uint64, v uint64)                  { atomStoreF(p, v) }
 func SwapInt32(p *int32, v int32) int32                { return atomSwap(p, v) }
 func SwapInt64(p *int64, v int64) int64                { return atomSwap(p, v) }
 func SwapUint32(p *uint32, v uint32) uint32            { return atomSwap(p, v) }
